@@ -21,6 +21,25 @@ impl<T: ToTokens, U: ToTokens> quote::ToTokens for TokenPair<T, U> {
     }
 }
 
+/// `::core::marker::Sync` / `::core::marker::Send`.
+/// Never a bare identifier, which an item in the invoking scope could shadow.
+pub struct CoreMarker(pub &'static str, pub proc_macro2::Span);
+
+impl quote::ToTokens for CoreMarker {
+    fn to_tokens(&self, stream: &mut TokenStream) {
+        let span = self.1;
+        push_tokens!(
+            stream,
+            syn::token::PathSep(span),
+            syn::Ident::new("core", span),
+            syn::token::PathSep(span),
+            syn::Ident::new("marker", span),
+            syn::token::PathSep(span),
+            syn::Ident::new(self.0, span)
+        );
+    }
+}
+
 pub struct EmptyToken;
 
 impl quote::ToTokens for EmptyToken {
